@@ -859,7 +859,7 @@ pub fn run(ctx: &Ctx) -> i32 {
     });
     rep.add(out);
     rep.extra.insert("grid_size".into(), json!(items.len()));
-    let cases = ctx.tier.pick(120_000, 3_000_000);
+    let cases = ctx.tier.pick(1_000_000, 20_000_000);
     let out = run_tapes("C09", ctx.seed, ctx.threads, cases, 64, |tape, stats, counting| {
         let g = Gates::with_off(off.clone());
         check_tape(tape, &g, stats, counting)
